@@ -304,6 +304,7 @@ fn run_boot(h: &HCtx, ops: &[String], start: usize, restarted: bool, lines: &Ref
             lines.borrow_mut().push((op, format!("{} | {}", st, dump())));
         }
         let mut next_local_sess: u16 = 1;
+        let mut tick_dropped: Option<String> = None;
         let mut i = start;
         while i < ops.len() {
             let op = ops[i].clone();
@@ -452,7 +453,44 @@ fn run_boot(h: &HCtx, ops: &[String], start: usize, restarted: bool, lines: &Ref
                     }
                 }
                 "tick" => {
+                    // While the time passes the subscription reporter runs as well. A report to a
+                    // subscriber that does not answer fails, and the reporter then drops the session
+                    // it used (im.rs `process_subscriptions`, the `Err` branch) - an event from outside
+                    // the administrative logic. It is named on the op line (`tick <secs> <sid>...`):
+                    // the CASE sessions to a (fabric, node) with a subscription that went away meanwhile.
+                    let mut subs: Vec<(u8, u64)> = Vec::new();
+                    im_state.verif_subscriptions().verif_visit(&mut |it| {
+                        use rs_matter::im::subscriptions::VerifItem;
+                        match it {
+                            VerifItem::Sub(v) | VerifItem::Reporting(v) => subs.push((v.fab_idx, v.peer_node_id)),
+                            _ => {}
+                        }
+                    });
+                    let case_sessions = || -> Vec<(u32, u8, u64)> {
+                        device.with_state(|state| {
+                            state
+                                .verif_parts()
+                                .sessions
+                                .iter()
+                                .filter_map(|s| match s.get_session_mode() {
+                                    SessionMode::Case { fab_idx, .. } => Some((s.id(), fab_idx.get(), s.get_peer_node_id().unwrap_or(0))),
+                                    _ => None,
+                                })
+                                .collect()
+                        })
+                    };
+                    let before = case_sessions();
                     Timer::after(Duration::from_secs(num(&w, 1))).await;
+                    let after = case_sessions();
+                    let mut gone: Vec<u32> = before
+                        .iter()
+                        .filter(|(id, fab, peer)| subs.contains(&(*fab, *peer)) && !after.iter().any(|a| a.0 == *id))
+                        .map(|x| x.0)
+                        .collect();
+                    gone.sort();
+                    if !gone.is_empty() {
+                        tick_dropped = Some(format!("tick {} {}", w[1], gone.iter().map(|x| x.to_string()).collect::<Vec<_>>().join(" ")));
+                    }
                     "ok".into()
                 }
                 "poll" => "ok".into(),
@@ -729,6 +767,8 @@ fn run_boot(h: &HCtx, ops: &[String], start: usize, restarted: bool, lines: &Ref
             // fabric that is gone and purges their persisted records) before the state is dumped
             Timer::after(Duration::from_millis(5)).await;
             if !slow {
+                // (a replayed `tick <secs> <sid>...` line is re-derived, not believed)
+                let op = if w[0] == "tick" { tick_dropped.take().unwrap_or(format!("tick {}", w[1])) } else { op };
                 lines.borrow_mut().push((op, format!("{} | {}", status, dump())));
             }
             if slow {
